@@ -23,7 +23,7 @@ from sim.core import Rng, SimCrash, close, h64
 from sim import disk as simdisk
 
 PROPS = ["C14"]
-BUDGET = {"C14": {"quick": {"runs": 5000, "wall_cap_s": 110}, "thorough": {"runs": 80000, "wall_cap_s": 1500}}}
+BUDGET = {"C14": {"quick": {"runs": 6000, "wall_cap_s": 150}, "thorough": {"runs": 100000, "wall_cap_s": 1800}}}
 RULE = {"C14": "one case = one seeded history (3-25 steps) of exports, edits, imports, restarts and injected I/O faults over up to 4 "
                "shapes on a simulated disk; non-trivial = an acknowledged export is followed by a restart or by an "
                "overwrite-after-failure and then by an import of that path (durability across a process boundary or across a "
